@@ -339,3 +339,31 @@ class LinOracles(Oracles):
     def truth(self, op, da, ca):
         """for specifications: truth of a predicate under the refined intervals (None if undetermined)"""
         return self.decide(op, {k: v for k, v in da.items() if v != 0}, ca)
+
+    def find_model(self, atoms, pred, bound=9, extra=None):
+        """search small non-negative integer values of the atoms satisfying every recorded interval / exclusion (and `extra`)
+        for which pred(values) holds; returns the assignment or None.  A decision procedure for the tiny linear systems the
+        iterator tables produce — it evaluates the recorded constraints, not the code."""
+        import itertools
+        atoms = list(atoms)
+        for vals in itertools.product(range(bound + 1), repeat=len(atoms)):
+            env = dict(zip(atoms, vals))
+            ok = True
+            for f, (lo, hi) in self.iv.items():
+                try:
+                    v = sum(c * env[a] for a, c in f)
+                except KeyError:
+                    continue
+                if (lo is not None and v < lo) or (hi is not None and v > hi):
+                    ok = False
+                    break
+                if v in self.excl.get(f, ()):
+                    ok = False
+                    break
+            if not ok:
+                continue
+            if extra is not None and not extra(env):
+                continue
+            if pred(env):
+                return env
+        return None
